@@ -28,6 +28,9 @@ CLAIMED = {
  "C11": dict(cat="model_checking", design="§4 C11", technique="TLC on Node.tla/MC_Node.tla (handler protocol: no crash outcome, NonInterference as an action property, completion of honest synchronisation under weak fairness) + TLC-simulated behaviours replayed on a whole node (routing, verification and consensus handlers stepped call by call) + trace validation against NodeTrace.tla of a twin run (node with / without the hostile inputs)",
    text="Node.tla has one action per handler call (connection events, announcements, fetched blocks, transactions, junk, one item of an internal queue); hostile input never changes HonestView, the tip is monotone, only valid items reach the consensus queue, and honest synchronisation completes under fairness whatever hostile input is interleaved. Behaviours of the bounded model (TLC -simulate) and a catalogue of 55 hostile message / fetched-block kinds (before and after the attacker's handshake, from opened and never-opened connections, floods beyond the rate limits, partially drained internal queues) are replayed on two real nodes in lockstep - one receives everything, the other only the acceptable inputs. NodeTrace demands that every handler call returns (panic or 20 s stall = violation), that the honest-visible projections (tip, chain, spendable set, pool, honest peers' records and fetch queues, messages sent to honest peers) stay equal, and that both end on the honest tip. Panics in the ledger scenario family (adversarial blocks and transactions) are reported here too.",
    note="hostile = rejected-by-construction inputs of the catalogue; sequences are sampled (simulation + random), exhaustive only in the bounded model"),
+ "C12": dict(cat="fault_enumeration", design="§4 C12", technique="TLC on Storage.tla (non-atomic block-file writes, crash at any point, the restart procedure of on_init with its abort-at-first-undecodable-file and delete-unreferenced-files steps) + enumeration of crash images (journal prefix x torn-write class) and clean restarts on the real node, validated against LedgerTrace.tla (C12 checks)",
+   text="Storage.tla models one file per block written in two steps, crashes between any two steps, and restart as the code does it (files in name order up to the first undecodable one, blocks offered in that order, unreferenced files deleted); TLC checks that the node always comes up on a block it knew (the old tip, an ancestor or a known branch block), holds every file it indexes, leaves no torn file behind and can be extended - and that the unrestricted 'same tip after clean restart' does not hold with competing branches (sensitivity, see known findings). On the real node every generated history (forks, reorganisations, pruning, rebroadcast) is cut after prefixes of its storage journal with the last block file complete, absent or torn at five byte classes; each image is booted through ConsensusThread::on_init on a scratch node, which must not panic, must come up on a known block with the supply intact and must accept one more honest block; clean restarts mid-history and at the end must reproduce tip, spendable in-window outputs and supply.",
+   note="torn writes at byte-class boundaries; long journals are cut at sampled prefixes; the wallet file and issuance file are not crash-tested"),
  "C13": dict(cat="model_checking", design="§4 C13", technique="TLA+ AtrViolations + MC_Ledger Rebroadcast model (NothingExpiredLingers) + trace validation over window-wrapping histories",
    text="For every adopted block past the window the monitor computes the set of outputs leaving the window from its own ledger and checks that rebroadcast transactions consume only those, each once, preserve the owner and produce ATR outputs; spending the original after rebroadcast is part of the adversary catalogue (spent_input).",
    note="G in {2,3,4,6}; NFT bound triples not generated"),
